@@ -27,7 +27,16 @@ type c18E2E struct {
 	Frames int    `json:"frames"` // service side: ordinary calls preceding the upgraded one
 }
 
+var c18StreamsCache map[string]string
+
 func c18Streams() map[string]string {
+	if c18StreamsCache == nil {
+		c18StreamsCache = c18StreamsBuild()
+	}
+	return c18StreamsCache
+}
+
+func c18StreamsBuild() map[string]string {
 	big := strings.Repeat("0123456789", 500)
 	f40 := `{"parameters":{"k":"` + strings.Repeat("v", 18) + `"}}`
 	mk := func(n int) string { return `{"p":"` + strings.Repeat("z", n-8) + `"}` }
@@ -45,7 +54,23 @@ func c18Streams() map[string]string {
 		"f4096p7":   mk(4096) + "\x00RAWDATA",
 		"f4097p7":   mk(4097) + "\x00RAWDATA",
 		"f4095f2p1": mk(4095) + "\x00{}\x00R",
+		"f1huge":    "{}\x00" + c18Huge(),
+		"huge":      c18Huge(),
 	}
+}
+
+var c18HugeCache string
+
+// c18Huge: 3 MiB in which every 8-byte block is distinct (a skipped, repeated or reordered block shows).
+func c18Huge() string {
+	if c18HugeCache == "" {
+		var sb strings.Builder
+		for i := 0; sb.Len() < 3<<20; i++ {
+			fmt.Fprintf(&sb, "%07d.", i)
+		}
+		c18HugeCache = sb.String()
+	}
+	return c18HugeCache
 }
 
 var c18StreamOrder = []string{"p0", "p1", "p7", "pnul", "f1p7", "f1pnul", "f2p7", "f2p0", "f1big", "f4095p7", "f4096p7", "f4097p7", "f4095f2p1"}
@@ -95,6 +120,29 @@ func c18Body(d c18Desc) func() {
 					}
 					cursor = len(stream)
 				}
+			} else if op[0] == 'D' {
+				// drain: raw reads of this size until the end of the stream
+				var n int
+				fmt.Sscanf(op, "D%d", &n)
+				buf := make([]byte, n)
+				reads := 0
+				for {
+					k, err := conn.Read(live, buf)
+					reads++
+					rest := stream[cursor:]
+					if err != nil {
+						st.res = append(st.res, fmt.Sprintf("drain:%d reads|%v", reads, err))
+						if len(rest) != 0 || k != 0 {
+							st.fail = fmt.Sprintf("primitive %d: draining with Read(%d) ended with %v after %d of %d bytes of the stream", i, n, err, cursor, len(stream))
+						}
+						break
+					}
+					if k < 1 || k > n || k > len(rest) || string(buf[:k]) != rest[:k] {
+						st.fail = fmt.Sprintf("primitive %d: draining Read(%d) at offset %d returned %s; the next bytes of the stream are %s", i, n, cursor, q(buf[:k]), q([]byte(rest[:min(len(rest), n)])))
+						break
+					}
+					cursor += k
+				}
 			} else {
 				var n int
 				fmt.Sscanf(op, "R%d", &n)
@@ -113,6 +161,65 @@ func c18Body(d c18Desc) func() {
 				cursor += k
 			}
 		}
+		st.done = true
+	}
+}
+
+type c18Duplex struct {
+	Kind string `json:"kind"`
+	Buf  int    `json:"buf"`
+}
+
+func c18DuplexBody(d c18Duplex) func() {
+	const prompt, answer = "prompt!!!", "answer-0123456789"
+	return func() {
+		w := newWorld()
+		st := &c18State{stream: answer}
+		w.LC = st
+		peer, mine := vnet.Pipe("u")
+		live := vnet.NewCtx("live")
+		conn := varlink.VerifNewCtxConn(mine)
+		aDone, bDone := false, false
+		vsched.GoDaemon("P", func() {
+			got := ""
+			buf := make([]byte, 64)
+			for len(got) < len(prompt) {
+				n, err := peer.Read(buf)
+				got += string(buf[:n])
+				if err != nil {
+					break
+				}
+			}
+			if got != prompt {
+				st.fail = fmt.Sprintf("the peer received %q, the connection wrote %q", got, prompt)
+			}
+			peer.Write([]byte(answer))
+			peer.CloseWrite()
+		})
+		vsched.GoDaemon("A", func() {
+			buf := make([]byte, d.Buf)
+			got := ""
+			for len(got) < len(answer) {
+				k, err := conn.Read(live, buf)
+				st.res = append(st.res, fmt.Sprintf("%d|%v", k, err))
+				if err != nil || k < 1 || k > d.Buf || len(got)+k > len(answer) || string(buf[:k]) != answer[len(got):len(got)+k] {
+					if st.fail == "" {
+						st.fail = fmt.Sprintf("raw Read(%d) pending while another goroutine wrote returned %s, %v; the peer sent %q from offset %d", d.Buf, q(buf[:max(k, 0)]), err, answer, len(got))
+					}
+					break
+				}
+				got += string(buf[:k])
+			}
+			aDone = true
+		})
+		vsched.GoDaemon("B", func() {
+			n, err := conn.Write(live, []byte(prompt))
+			if (n != len(prompt) || err != nil) && st.fail == "" {
+				st.fail = fmt.Sprintf("Write of %d bytes while a raw Read was pending returned %d, %v", len(prompt), n, err)
+			}
+			bDone = true
+		})
+		vsched.Yield("join", "H", func() bool { return aDone && bDone })
 		st.done = true
 	}
 }
@@ -371,6 +478,29 @@ func scenariosC18(tier string) []Scen {
 				out = append(out, Scen{Desc: d, Bound: 0, Body: c18Body(d), Check: c18Check, Obs: c18Obs})
 			}
 		}
+	}
+	// long raw streams (more than any internal limit or buffer) drained by raw reads after 0-1 frame reads
+	for _, sn := range []string{"f1huge", "huge"} {
+		n := len(streams[sn])
+		for _, cs := range [][]int{nil, {3}, {1 << 20}, {1<<20 - 1, 1<<20 + 1}, {65536, 1 << 20, 2 << 20}} {
+			for _, wd := range [][]string{{"B", "D65536"}, {"D65536"}, {"B", "D4096"}, {"R7", "D8192"}, {"B", "R4096", "D1048576"}} {
+				if wd[0] == "B" && sn == "huge" {
+					continue
+				}
+				_ = n
+				d := c18Desc{Stream: sn, Cuts: cs, Word: wd}
+				out = append(out, Scen{Desc: d, Bound: 0, Horizon: 2000000, Body: c18Body(d), Check: c18Check, Obs: c18Obs})
+			}
+		}
+	}
+	// full duplex on one connection object: a raw Read is pending while another goroutine writes
+	for _, buf := range []int{1, 7, 4096} {
+		d := c18Duplex{Kind: "duplex", Buf: buf}
+		b := 2
+		if tier != "quick" {
+			b = 3
+		}
+		out = append(out, Scen{Desc: d, Bound: b, Body: c18DuplexBody(d), Check: c18Check, Obs: c18Obs})
 	}
 	// end to end
 	req := `{"method":"t.up.ToService","upgrade":true}` + "\x00"
